@@ -378,6 +378,8 @@ class Interp:
                         g.cls = cls
             if cls.is_enum and not k.startswith("_") and not isinstance(v, (FuncVal, ClassVal)):
                 v = EnumMember(cls, k, v)
+            if k.startswith("__") and not k.endswith("__"):
+                k = f"_{st.name.lstrip('_')}{k}"       # private name mangling
             cls.ns[k] = v
         if st.decorator_list:
             for d in st.decorator_list:
@@ -772,6 +774,8 @@ class Interp:
         if isinstance(v, (list, tuple, range, str, dict, set, frozenset)):
             return iter(v)
         if isinstance(v, np.ndarray):
+            if v.ndim == 0:
+                raise PyRaise("TypeError", "iteration over a 0-d array / numpy scalar")
             return iter(v) if v.ndim != 1 else iter(v.tolist() if v.dtype == object else list(v))
         if isinstance(v, Obj):
             m, _ = v.cls.find("__iter__")
@@ -1004,7 +1008,10 @@ class Interp:
             # boolean mask / index array with symbolic entries
             return self.lib.fancy_index(self, o, idx)
         try:
-            return o[idx]
+            r = o[idx]
+            if isinstance(r, np.ndarray) and r.ndim == 0 and r.dtype == object:
+                return r[()]       # float arrays yield scalars here; object arrays model float arrays
+            return r
         except IndexError as e:
             raise PyRaise("IndexError", str(e))
         except KeyError as e:
